@@ -801,9 +801,65 @@ def single_rebinding_free(fn, param):
     return not any(isinstance(n, ast.Name) and n.id == param and isinstance(n.ctx, ast.Store) for n in fn.own)
 
 
-def deps(an, fn, expr, exclude_state=()):
-    """Parameters and module-level state that `expr` may depend on: through local assignments (flow-insensitive), and through
-    the module state read by package functions it calls."""
+def _binds(stmt, name):
+    """Does `stmt` (anywhere inside, not descending into nested defs) bind / rebind / delete the local `name`?"""
+    for n in [stmt] + list(_own(stmt)):
+        if isinstance(n, ast.Name) and n.id == name and isinstance(n.ctx, (ast.Store, ast.Del)):
+            return True
+    return False
+
+
+def reaching_def(fn, name, at):
+    """The ONE assignment `name = <expr>` that reaches the statement containing `at` on every path, found by scanning the
+    statements before it in its own block and then in the enclosing blocks; None when another binding may intervene (a compound
+    statement binding the name, a loop around it that rebinds it) or none is found.  -> (value expr, assignment stmt) | None"""
+    pm = getattr(fn, "_pm", None) or parents_of(fn)
+    fn._pm = pm
+    s = at
+    while s is not None and not isinstance(s, ast.stmt):
+        s = pm.get(id(s))
+    while s is not None and s is not fn.node:
+        parent = pm.get(id(s))
+        block = None
+        for fld in ("body", "orelse", "finalbody"):
+            lst = getattr(parent, fld, None)
+            if isinstance(lst, list) and any(x is s for x in lst):
+                block = lst
+        if block is None and isinstance(parent, ast.ExceptHandler):
+            block = parent.body
+        if block is None:
+            s = parent
+            continue
+        idx = next(i for i, x in enumerate(block) if x is s)
+        for t in reversed(block[:idx]):
+            if isinstance(t, ast.Assign) and len(t.targets) == 1 and isinstance(t.targets[0], ast.Name) and t.targets[0].id == name:
+                return (t.value, t)
+            if isinstance(t, ast.AnnAssign) and isinstance(t.target, ast.Name) and t.target.id == name and t.value is not None:
+                return (t.value, t)
+            if isinstance(t, ast.Assign) and len(t.targets) == 1 and isinstance(t.targets[0], (ast.Tuple, ast.List)) \
+                    and any(isinstance(e, ast.Name) and e.id == name for e in t.targets[0].elts):
+                i = next(i for i, e in enumerate(t.targets[0].elts) if isinstance(e, ast.Name) and e.id == name)
+                return (("component", i, t.value), t)
+            if _binds(t, name):
+                return None
+        if isinstance(parent, (ast.For, ast.While, ast.AsyncFor)) and _binds(parent, name):
+            return None
+        if isinstance(parent, (ast.With, ast.AsyncWith)) and any(it.optional_vars is not None and _binds(it.optional_vars, name) for it in parent.items):
+            return None
+        if isinstance(parent, ast.If) and _binds(parent.test, name):
+            return None                                        # walrus in the test: the branch decides what reaches
+        s = parent
+        while s is not None and not isinstance(s, (ast.stmt, ast.ExceptHandler)):
+            s = pm.get(id(s))
+        if isinstance(s, ast.ExceptHandler):
+            s = pm.get(id(s))
+    return None
+
+
+def deps(an, fn, expr, exclude_state=(), at=None):
+    """Parameters and module-level state that `expr` may depend on: through local assignments, and through the module state read
+    by package functions it calls.  Flow-insensitive, except that a local whose single reaching definition at `at` is found
+    (reaching_def) takes the dependencies of that definition only."""
     params = fn.all_params
     dep = {p: {p} for p in params}
 
@@ -859,7 +915,32 @@ def deps(an, fn, expr, exclude_state=()):
                         b = b.value
                     if isinstance(b, ast.Name):
                         dep[b.id] = dep.get(b.id, set()) | d | extra
-    out = of(expr)
+    def of_at(e, where, depth=0):
+        if where is None or depth > 6:
+            return of(e)
+        d = set()
+        stack = [e]
+        while stack:
+            x = stack.pop()
+            if isinstance(x, ast.Name) and x.id in fn.locals and isinstance(x.ctx, ast.Load):
+                rd = reaching_def(fn, x.id, where)
+                if rd is None:
+                    d |= dep.get(x.id, set())
+                else:
+                    val, stmt = rd
+                    if isinstance(val, tuple):
+                        val = val[2]
+                    d |= of_at(val, stmt, depth + 1)
+                continue
+            if isinstance(x, ast.Name) or isinstance(x, ast.Call):
+                d |= of(x) if isinstance(x, ast.Name) else {"state:" + s_ for k_ in [an.resolve_call(fn, x)] if k_ is not None for s_ in an.fns[k_].reads}
+            if isinstance(x, (ast.ListComp, ast.SetComp, ast.DictComp, ast.GeneratorExp, ast.Lambda)):
+                d |= of(x)                                      # own scopes: flow-insensitive
+                continue
+            stack.extend(ast.iter_child_nodes(x))
+        return d
+
+    out = of_at(expr, at)
     live = {"state:" + s for s in an.written_states()} - {"state:" + s for s in exclude_state}     # tables nobody writes are constants
     return {x for x in out if not x.startswith("state:") or x in live}
 
@@ -1403,3 +1484,109 @@ def resolve_alias_text(fn, text):
         else:
             break
     return ast.unparse(e)
+
+
+def _stmt_of(fn, node):
+    pm = getattr(fn, "_pm", None) or parents_of(fn)
+    fn._pm = pm
+    s = node
+    while s is not None and not isinstance(s, ast.stmt):
+        s = pm.get(id(s))
+    return s
+
+
+def _dominates_in_block(fn, first, later):
+    """`first` (a statement) is an earlier sibling of the statement containing `later`, or of one of its ancestors."""
+    pm = getattr(fn, "_pm", None) or parents_of(fn)
+    fn._pm = pm
+    parent = pm.get(id(first))
+    s = _stmt_of(fn, later)
+    while s is not None and s is not fn.node:
+        if pm.get(id(s)) is parent:
+            for fld in ("body", "orelse", "finalbody"):
+                lst = getattr(parent, fld, None)
+                if isinstance(lst, list) and any(t is first for t in lst) and any(t is s for t in lst):
+                    return [i for i, t in enumerate(lst) if t is first][0] < [i for i, t in enumerate(lst) if t is s][0]
+            return False
+        s = pm.get(id(s))
+        while s is not None and not isinstance(s, ast.stmt):
+            s = pm.get(id(s))
+    return False
+
+
+def must_carry(an, fn, expr, at, x, depth=0):
+    """Does `expr`, evaluated at `at`, CERTAINLY denote the state object x ('S') or an object it holds / has handed out ('V')?
+    Only flows that hold on every path count: the single reaching definition of a local, selections on the state object, results
+    of package functions all of whose (non-None) returns do, and a local that an earlier statement of the same block stored
+    into the state.  None: not certain (the may-analysis may still say so)."""
+    if depth > 6 or expr is None:
+        return None
+    if isinstance(expr, ast.Name):
+        name = expr.id
+        if name not in fn.locals:
+            r = an.resolve_name(fn.rel, name)
+            return "S" if (r and r[0] == "state" and an.sid(r[1], r[2]) == x) else None
+        for (sx, store) in fn.pubs.get(name, ()):
+            st_stmt = _stmt_of(fn, store)
+            if sx == x and st_stmt is not None and _dominates_in_block(fn, st_stmt, at):
+                a, b = reaching_def(fn, name, at), reaching_def(fn, name, st_stmt)
+                if (a is None and b is None and not any(_binds(t, name) for t in _between(fn, st_stmt, at))) or (a is not None and b is not None and a[1] is b[1]):
+                    return "V"
+        rd = reaching_def(fn, name, at)
+        if rd is None:
+            return None
+        val, stmt = rd
+        if isinstance(val, tuple):
+            b = must_carry(an, fn, val[2], stmt, x, depth + 1)
+            return "V" if b else None
+        return must_carry(an, fn, val, stmt, x, depth + 1)
+    if isinstance(expr, ast.Attribute) or (isinstance(expr, ast.Subscript) and not isinstance(expr.slice, ast.Slice)):
+        b = must_carry(an, fn, expr.value, at, x, depth + 1)
+        return "V" if b else None
+    if isinstance(expr, ast.NamedExpr):
+        return must_carry(an, fn, expr.value, at, x, depth + 1)
+    if isinstance(expr, ast.IfExp):
+        a, b = must_carry(an, fn, expr.body, at, x, depth + 1), must_carry(an, fn, expr.orelse, at, x, depth + 1)
+        return a if a and a == b else None
+    if isinstance(expr, ast.Call):
+        f = expr.func
+        if dotted(f) == "getattr" and expr.args:
+            return "V" if must_carry(an, fn, expr.args[0], at, x, depth + 1) else None
+        if isinstance(f, ast.Attribute) and f.attr in SELECTORS:
+            callee, _b = an.call_binding(fn, expr)
+            if callee is None:
+                return "V" if must_carry(an, fn, f.value, at, x, depth + 1) else None
+        callee, _b = an.call_binding(fn, expr)
+        if callee is not None:
+            rets = [n for n in callee.own if isinstance(n, ast.Return) and n.value is not None and not (isinstance(n.value, ast.Constant) and n.value.value is None)]
+            kinds = {must_carry(an, callee, r.value, r, x, depth + 1) for r in rets}
+            if rets and len(kinds) == 1 and None not in kinds:
+                return kinds.pop()
+    return None
+
+
+def _between(fn, first, later):
+    pm = getattr(fn, "_pm", None) or parents_of(fn)
+    parent = pm.get(id(first))
+    s = _stmt_of(fn, later)
+    while s is not None and pm.get(id(s)) is not parent:
+        s = pm.get(id(s))
+    for fld in ("body", "orelse", "finalbody"):
+        lst = getattr(parent, fld, None)
+        if isinstance(lst, list) and any(t is first for t in lst) and s is not None and any(t is s for t in lst):
+            i, j = [k for k, t in enumerate(lst) if t is first][0], [k for k, t in enumerate(lst) if t is s][0]
+            return lst[i + 1:j]
+    return []
+
+
+def certain_mutation(an, e):
+    """A vmut / write event whose mutation form is definite AND whose receiver certainly is the published / state object."""
+    if not e["definite"]:
+        return False
+    fn = an.fns[e["fn"]]
+    lab = ("V:" if e["kind"] == "vmut" else "S:") + e["state"]
+    recv = receiver_of(e["node"], lambda t: lab in an.L(fn, t, e["node"]))
+    if recv is None:
+        return False
+    # passed to a function that mutates its parameter: certain only if the callee's own mutation is a definite form
+    return must_carry(an, fn, recv, e["node"], e["state"]) is not None
